@@ -4,6 +4,37 @@ From GZ Require Import Lib.RollingWindow C01.Model C01.Spec C01.Proofs C01.WrapM
 Import ListNotations.
 Open Scope Z_scope.
 
+Lemma rest_chain_table :
+  (* a timed-out request is a failure whatever the handler had sent, a cancelled one is not *)
+  (forall rec ops, rest_accepts (HScript (ChTimeout rec) ops HStallTimeout) = false) /\
+  (forall rec ops, rest_accepts (HScript (ChTimeout rec) ops HStallCancel) = true) /\
+  (* without TimeoutHandler the LAST status decides (e.g. 103 Early Hints, then 500) *)
+  (forall rec ops c, h_code (HScript (ChPlain rec) (ops ++ [HWriteHeader c]) HReturn) = c) /\
+  (* a panic caught by RecoverHandler is a 500 *)
+  (forall ops, h_code (HScript (ChPlain true) ops HPanicEnd) = 500) /\
+  (* behind TimeoutHandler the handler's FIRST status is the one handed on when it returns *)
+  (forall rec c ops, h_code (HScript (ChTimeout rec) (HWriteHeader c :: ops) HReturn) = c).
+Proof.
+  repeat split; try reflexivity.
+  - intros rec ops c. cbn. rewrite fold_left_app. reflexivity.
+  - intros rec c ops. cbn [h_code script_result fst].
+    assert (H : forall ops t, tw_wrote t = true ->
+              tw_done (fold_left tw_op ops t) = tw_done t /\ tw_wrote (fold_left tw_op ops t) = true).
+    { induction ops0 as [|o ops0 IH]; intros t Ht; [auto|]. cbn [fold_left].
+      assert (Hh : forall c0, tw_header t c0 = t) by (intros; unfold tw_header; rewrite Ht; reflexivity).
+      destruct o; cbn [tw_op]; rewrite ?Hh.
+      - apply IH. exact Ht.
+      - apply IH. exact Ht.
+      - destruct (tw_flushed t) eqn:Ef; [apply IH; exact Ht|].
+        destruct (IH (mkTW true (tw_code t) true (if tw_code t =? 200 then tw_cw t else tw_code t)) eq_refl) as (I1 & I2).
+        rewrite I1, I2. split; [|reflexivity]. unfold tw_done. cbn. rewrite Ef.
+        destruct (tw_code t =? 200); cbn; rewrite ?andb_false_r; reflexivity. }
+    assert (E0 : tw_op (mkTW false 200 false 200) (HWriteHeader c) = mkTW true c false 200) by reflexivity.
+    cbn [fold_left]. rewrite E0.
+    destruct (H ops (mkTW true c false 200) eq_refl) as (H1 & _). rewrite H1.
+    unfold tw_done. cbn. destruct (c =? 200) eqn:E; cbn; [apply Z.eqb_eq in E; congruence|reflexivity].
+Qed.
+
 Definition through_breaker (k : wkind) : bool :=
   match k with WSqlPredicate | WRedisIgnoredCmd => false | _ => true end.
 
@@ -57,7 +88,7 @@ Lemma w_outcome_ok : forall k d,
 Proof.
   intros k d Hk. unfold w_outcome.
   destruct d; try reflexivity; try (destruct (w_acceptable k _); reflexivity).
-  destruct k as [| | | | | | | | |m u]; try discriminate Hk; try reflexivity. destruct m; reflexivity.
+  destruct k as [| | | | | | | | |m u|]; try discriminate Hk; try reflexivity. destruct m; reflexivity.
 Qed.
 
 Lemma wrap_is_entry_live : forall cfg w k (ctxdone : bool) d gap dur u cm,
@@ -120,11 +151,11 @@ Qed.
 
 Lemma acceptability_tables :
   (* gRPC client: only status errors with one of six codes are failures *)
-  (forall d, codes_acceptable d = false <-> exists c, d = DStatus c /\ grpc_failure_code c = true) /\
+  (forall d, codes_acceptable d = false <-> d = DStallTimeout \/ exists c, d = DStatus c /\ grpc_failure_code c = true) /\
   (* gRPC server: the same, plus a plain context.DeadlineExceeded and a breaker error from below *)
   (forall d, server_acceptable d = false <->
      d = DCtxDeadline \/ d = DBreakerUnavailable \/ d = DWrappedDeadline \/ d = DWrappedBreakerUnavailable \/
-     exists c, d = DStatus c /\ grpc_failure_code c = true) /\
+     d = DStallTimeout \/ exists c, d = DStatus c /\ grpc_failure_code c = true) /\
   (* redis: nil, redis.Nil, context.Canceled (also wrapped) are fine, everything else fails *)
   (forall d, redis_acceptable d = true <->
      d = DNil \/ d = DRedisNil \/ d = DWrappedRedisNil \/ d = DCtxCanceled \/ d = DWrappedCanceled) /\
@@ -140,12 +171,12 @@ Lemma acceptability_tables :
   (forall h, rest_accepts h = true <-> h_code h < 500) /\ rest_accepts (HPanic None) = true.
 Proof.
   repeat split.
-  - destruct d; cbn; try discriminate. intros H. exists code. split; [reflexivity|].
+  - destruct d; cbn; try discriminate; auto. intros H. right. exists code. split; [reflexivity|].
     destruct (grpc_failure_code code); [reflexivity|discriminate].
-  - intros (c & -> & H). cbn. rewrite H. reflexivity.
-  - destruct d; cbn; try discriminate; auto 6. intros H. do 4 right. exists code. split; [reflexivity|].
+  - intros [->|(c & -> & H)]; cbn; [reflexivity|]. rewrite H. reflexivity.
+  - destruct d; cbn; try discriminate; auto 7. intros H. do 5 right. exists code. split; [reflexivity|].
     destruct (grpc_failure_code code); [reflexivity|discriminate].
-  - intros [->|[->|[->|[->|(c & -> & H)]]]]; cbn; try reflexivity. rewrite H. reflexivity.
+  - intros [->|[->|[->|[->|[->|(c & -> & H)]]]]]; cbn; try reflexivity. rewrite H. reflexivity.
   - destruct d; cbn; try discriminate; tauto.
   - intros [->|[->|[->|[->| ->]]]]; reflexivity.
   - destruct d; cbn; try discriminate; try tauto; auto 10.
